@@ -19,6 +19,7 @@ Match(r) == /\ now' = r.now
             /\ Len(fired') = r.nfired
             /\ Suffix(fired', Len(r.nf)) = r.nf
             /\ uid' = r.uid
+            /\ MatchNext => \A kind \in Kinds : ToSet(r.front[kind]) = {[e |-> t.e, k |-> t.k] : t \in FrontAnswer(kind)}' 
 
 TInit == Init /\ l = 1 /\ Trace[1].ev = "reset"
 TReset == /\ Trace[l + 1].ev = "reset"
@@ -29,6 +30,7 @@ Step(r) == \/ r.ev = "add" /\ ~r.panic /\ Add(r.kind, r.e, r.k, r.d)
            \/ r.ev = "del" /\ ~r.panic /\ Del(r.kind, r.e, r.k)
            \/ r.ev = "has" /\ ~r.panic /\ Has(r.kind, r.e, r.k) /\ r.res = HasAnswer(r.kind, r.e, r.k)
            \/ r.ev = "tick" /\ ~r.panic /\ Tick(r.e, r.dt)
+           \/ r.ev = "reload" /\ ~r.panic /\ Reload
 TNext == /\ l < Len(Trace) /\ l' = l + 1
          /\ LET r == Trace[l + 1] IN
               \/ TReset
